@@ -387,6 +387,7 @@ def run_check(pid, tier, seed, replay=None):
     elif broken:
         # 5. search the implementation for a failing input
         found = None
+        search_error = None
         try:
             if hasattr(mod, "search"):
                 sres = mod.search(ctx, res)
@@ -398,7 +399,8 @@ def run_check(pid, tier, seed, replay=None):
                 if cand:
                     found = min(cand, key=lambda f: len(json.dumps(f.get("input"), default=str)))
         except Exception:
-            log.append("search failed:\n" + traceback.format_exc())
+            search_error = traceback.format_exc()
+            log.append("search failed:\n" + search_error)
         if found:
             path = write_replay(pid, "counterexample", {"failure": found, "seed": seed, "tier": tier, "found_by": "search"})
             violation = "VIOLATION property=%s replay=%s" % (pid, path)
@@ -413,6 +415,8 @@ def run_check(pid, tier, seed, replay=None):
                 what["correspondence_disagreements"] = res.disagreements[:5]
             if corr_error:
                 what["correspondence_error"] = corr_error[-3000:]
+            if search_error:
+                what["search_error"] = search_error[-3000:]  # the search itself broke off: the harness, not the code, needs a look
             path = write_replay(pid, "unchecked-obligation", {"no_longer_checks": what, "seed": seed, "tier": tier})
             violation = "VIOLATION property=%s replay=%s no-failing-input-found" % (pid, path)
 
